@@ -452,7 +452,21 @@ def discharge(ob: Obligation, st: State, timeout_ms: int, use_cvc5: bool, both: 
             ob.model = {"error": f"model decoding failed: {e}"}
     else:
         ob.status, ob.detail = "unknown", str(m)
-        if use_cvc5:
+        # quantifier instantiation is sensitive to scheduling noise: before giving up, two more attempts with other
+        # solver seeds and twice the time (a verdict must not flip because the machine is busy)
+        for attempt in (() if st.cfg.get("ground") else (1, 2)):
+            r3, m3 = smt.check(assertions, timeout_ms * 2, seed=attempt * 7919)
+            if r3 == "unsat":
+                ob.status, ob.detail, ob.backend = "discharged", f"z3 retry {attempt}", "z3"
+                break
+            if r3 == "sat":
+                ob.status, ob.backend = "failed", "z3"
+                try:
+                    ob.model = decode_model(m3, st)
+                except Exception as e:
+                    ob.model = {"error": f"model decoding failed: {e}"}
+                break
+        if ob.status == "unknown" and use_cvc5:
             r2 = cvc5_check(assertions, timeout_ms / 1000)
             if r2 == "unsat":
                 ob.status, ob.backend, ob.detail = "discharged", "cvc5", "z3 unknown"
